@@ -29,8 +29,15 @@ type c06Consumer struct {
 	udpErr [2]int64
 }
 
-// normalizeNals drops AUD, parameter sets equal to the in-force ones and (tsSide) HEVC SEI.
+// normalizeNals drops AUD, parameter sets equal to the ones in force for frame fi and (tsSide)
+// HEVC SEI. A parameter set that was published but is NOT in force for that frame (the stream
+// changes its PPS once when Spec.PsChange is set) is reported as stale, anything else as foreign.
 func c06Normalize(es *gen.EsStream, nals [][]byte, dropHevcSei bool) (out [][]byte, foreignPS bool) {
+	out, foreignPS, _ = c06NormalizeAt(es, -1, nals, dropHevcSei)
+	return
+}
+
+func c06NormalizeAt(es *gen.EsStream, fi int, nals [][]byte, dropHevcSei bool) (out [][]byte, foreignPS, stalePS bool) {
 	hevc := es.Spec.VCodec != "avc"
 	for _, n := range nals {
 		switch gen.NalClass(hevc, n) {
@@ -47,7 +54,15 @@ func c06Normalize(es *gen.EsStream, nals [][]byte, dropHevcSei bool) (out [][]by
 			}
 			foreignPS = true
 		case "pps":
-			if bytes.Equal(n, es.Pps) {
+			if fi < 0 {
+				// consumer without a per-frame in-force notion (RTSP: parameter sets travel as published)
+				if bytes.Equal(n, es.Pps) || (es.Pps2 != nil && bytes.Equal(n, es.Pps2)) {
+					continue
+				}
+			} else if bytes.Equal(n, es.PpsAt(fi)) {
+				continue
+			} else if bytes.Equal(n, es.Pps) || (es.Pps2 != nil && bytes.Equal(n, es.Pps2)) {
+				stalePS = true
 				continue
 			}
 			foreignPS = true
@@ -187,10 +202,14 @@ func (j *c06Judge) judgeTs(kind string, body []byte, fromStart bool, allowCC boo
 				return
 			}
 			lastV = vpos[fi]
-			got, foreign := c06Normalize(es, nals, true)
-			want, _ := c06Normalize(es, f.Nals, true)
+			got, foreign, stale := c06NormalizeAt(es, fi, nals, true)
+			want, _, _ := c06NormalizeAt(es, fi, f.Nals, true)
 			if foreign {
 				j.bad(kind, "foreign-parameter-set", "frame %d carries a parameter set that differs from the published ones", fi)
+				return
+			}
+			if stale {
+				j.bad(kind, "stale-parameter-set", "frame %d carries a PPS that is not the one in force for it (the stream changed its PPS in-band at frame %d)", fi, es.PsChangeFrame)
 				return
 			}
 			if dd := nalListEq(got, want); dd != "" {
@@ -199,18 +218,17 @@ func (j *c06Judge) judgeTs(kind string, body []byte, fromStart bool, allowCC boo
 			}
 			if f.Key {
 				// parameter sets must precede the first IDR/IRAP
-				havePS := false
+				seen := map[string]bool{}
 				for _, n := range nals {
 					cl := gen.NalClass(hevc, n)
-					if cl == "sps" {
-						havePS = true
-					}
 					if cl == "vcl" {
 						break
 					}
+					seen[cl] = true
 				}
+				havePS := seen["sps"] && seen["pps"] && (!hevc || seen["vps"])
 				if !havePS || !p.RAI {
-					j.bad(kind, "key-frame-marking", "key frame %d: parameter sets before it=%v random_access=%v", fi, havePS, p.RAI)
+					j.bad(kind, "key-frame-marking", "key frame %d: parameter sets before it: vps=%v sps=%v pps=%v (a decoder starting here needs all of them) random_access=%v", fi, seen["vps"], seen["sps"], seen["pps"], p.RAI)
 					return
 				}
 			}
@@ -233,8 +251,12 @@ func (j *c06Judge) judgeTs(kind string, body []byte, fromStart bool, allowCC boo
 					return
 				}
 				for _, a := range afs {
-					if a.Profile+1 != int(es.Asc[0]>>3) || a.SampIdx != es.Spec.AacIdx || a.ChannelConf != int(es.Asc[1]>>3&0xf) {
-						j.bad(kind, "adts-header", "ADTS header object=%d sampling index=%d channels=%d, AudioSpecificConfig says %d/%d/%d", a.Profile+1, a.SampIdx, a.ChannelConf, es.Asc[0]>>3, es.Spec.AacIdx, es.Asc[1]>>3&0xf)
+					asc := es.Asc
+					if fa := c06FrameOf(es, [][]byte{a.Payload}); fa >= 0 {
+						asc = es.AscAt(fa) // the config in force when this frame was published
+					}
+					if a.Profile+1 != int(asc[0]>>3) || a.SampIdx != es.Spec.AacIdx || a.ChannelConf != int(asc[1]>>3&0xf) {
+						j.bad(kind, "adts-header", "ADTS header object=%d sampling index=%d channels=%d, the AudioSpecificConfig in force says %d/%d/%d", a.Profile+1, a.SampIdx, a.ChannelConf, asc[0]>>3, es.Spec.AacIdx, asc[1]>>3&0xf)
 						return
 					}
 					frames = append(frames, a.Payload)
@@ -530,7 +552,7 @@ func c06Spec(c *fw.Ctx, i int) gen.EsSpec {
 		a = "aac"
 	}
 	sp := gen.EsSpec{VCodec: v, ACodec: a, NVideo: 60 + r.Intn(80), GopLen: 6 + r.Intn(12), AudioPer: 1 + r.Intn(3), MaxNals: 1 + r.Intn(6), BigNals: r.Intn(3) == 0,
-		InBandPS: r.Intn(2) == 0, AudSei: r.Intn(2) == 0, BFrames: r.Intn(2) == 0, TsStart: []uint32{0, 1000, 0xFFFFFF - 1000, 0x7fffff00}[r.Intn(4)], TsJump: r.Intn(4) == 0, AudioGap: r.Intn(4) == 0, LonePS: r.Intn(3) == 0}
+		InBandPS: r.Intn(2) == 0, AudSei: r.Intn(2) == 0, BFrames: r.Intn(2) == 0, TsStart: []uint32{0, 1000, 0xFFFFFF - 1000, 0x7fffff00}[r.Intn(4)], TsJump: r.Intn(4) == 0, AudioGap: r.Intn(4) == 0, LonePS: r.Intn(3) == 0, PsChange: r.Intn(3) == 0, PartialPS: r.Intn(3) == 0, AscChange: r.Intn(3) == 0}
 	if a == "aac" {
 		sp.AacIdx = r.Intn(13)
 		sp.AacChans = 1 + r.Intn(7)
@@ -562,7 +584,7 @@ func init() {
 			return 84
 		},
 		CaseTimeout: func(string) time.Duration { return 5 * time.Minute },
-		Rule: "one case = one whole-server run: a seeded elementary stream (AVC / HEVC classic / HEVC enhanced-RTMP / no video × AAC (13 sampling indices × 1–7 channels × object types 1–4) / Opus / G.711 / no audio; 1–6 tagged NAL units per frame sized 1 B…400 KiB around multiples of 184/1200/4096; in-band parameter sets, AUD, SEI, B-frame composition offsets, timestamp start near 0xFFFFFF / 2^31, a forward jump, sparse audio) is published by the reference RTMP client; consumers: HTTP-TS from the start, RTSP over interleaved TCP and over UDP joining mid-stream, HLS (playlist + every segment fetched after the stream ends). " +
+		Rule: "one case = one whole-server run: a seeded elementary stream (AVC / HEVC classic / HEVC enhanced-RTMP / no video × AAC (13 sampling indices × 1–7 channels × object types 1–4) / Opus / G.711 / no audio; 1–6 tagged NAL units per frame sized 1 B…400 KiB around multiples of 184/1200/4096; in-band parameter sets (complete, partial, on their own, and one in-band change of the PPS), a second AAC sequence header with another configuration, AUD, SEI, B-frame composition offsets, timestamp start near 0xFFFFFF / 2^31, a forward jump, sparse audio) is published by the reference RTMP client; consumers: HTTP-TS from the start, RTSP over interleaved TCP and over UDP joining mid-stream, HLS (playlist + every segment fetched after the stream ends). " +
 			"oracle: reference TS demuxer / ADTS / Annex-B splitters and RFC 6184/7798/3640 depacketisers recover frames which must equal the published ones per track (after dropping AUD, re-inserted parameter sets, H.265 SEI on TS), in order, exactly once, to the end; DTS/PTS−90·ts constant per track per consumer; RTP timestamp within one tick; ADTS header = ASC; SDP sprop/config = published parameter sets. cell = consumer × codec pair.",
 		Assumptions: []string{"reference demuxer / depacketisers (harness/ref)", "a UDP consumer with an RTP sequence gap is inconclusive (kernel drop cannot be told apart)", "G.711 is not carried in TS (audio PID absent is accepted)"},
 		MinCells: 8,
